@@ -79,6 +79,14 @@ namespace OP2Utility
 		stream.Read(mapHeader);
 		CheckMinVersionTag(mapHeader.versionTag);
 
+		// The width must be a representable power of 2 and the tile count must fit its 32 bit type
+		if (mapHeader.lgWidthInTiles >= 32 ||
+			(static_cast<uint64_t>(mapHeader.heightInTiles) << mapHeader.lgWidthInTiles) > UINT32_MAX)
+		{
+			throw std::runtime_error("Map dimensions are too large: log2 of width = " +
+				std::to_string(mapHeader.lgWidthInTiles) + ", height = " + std::to_string(mapHeader.heightInTiles));
+		}
+
 		Map map;
 		map.versionTag = mapHeader.versionTag;
 		map.isSavedGame = mapHeader.bSavedGame;
